@@ -86,6 +86,12 @@ def run(ctx):
             units, style = spell(rng, period, f, off)
             exprs.append(f'(render {to_coq(codes(period))} {fields_literal(f)} ({off}))')
             plans.append((units, style, period, f, off))
+    # the same reference time and period under one offset after another (files of one model run converted from several zones)
+    f_same = (1990, 1, 1, 0, 0, 0)
+    for off in (600, -180, 0, 330, 600, -570):
+        units, style = spell(rng, 'days', f_same, off, 'space')
+        exprs.append(f'(render {to_coq(codes("days"))} {fields_literal(f_same)} ({off}))')
+        plans.append((units, style, 'days', f_same, off))
     model = coq_eval_sharded(['Model.TimeUnits'], exprs, shard=max(50, len(exprs) // 14), workers=14)
     ctx.leg('format_cases', len(exprs))
     import time as _time
@@ -289,9 +295,15 @@ def run(ctx):
                     svars.append((vi, str(v), va.dtype.kind in 'fcMmO',
                                   'None' if isinstance(e, str) else ('(Some None)' if e is None else f'(Some (Some ({fcode(e)})))'),
                                   f'(Some ({fcode(va.attrs["_FillValue"])}))' if '_FillValue' in va.attrs else 'None'))
+                enc_before = {str(v_): repr(sorted((str(k_), repr(x_)) for k_, x_ in first[v_].encoding.items())) for v_ in first.variables}
                 r = attempt(lambda: first.ems.to_netcdf(dst, **kwargs))
             if r[0] != 'ok':
                 ctx.report('property', f'ems.to_netcdf failed: {r[1]}', case)
+                continue
+            enc_after = {str(v_): repr(sorted((str(k_), repr(x_)) for k_, x_ in first[v_].encoding.items())) for v_ in first.variables}
+            if enc_after != enc_before:
+                ctx.report('property', f'saving changed the encoding of the caller\'s variables {[v_ for v_ in enc_before if enc_before[v_] != enc_after.get(v_)]}: '
+                           f'the dataset is not left as it was', case)
                 continue
             if not kwargs:
                 rb0 = raw_attrs(dst)
@@ -367,6 +379,32 @@ def run(ctx):
                 plans.append((case, str(new_units)))
             first.close()
             second.close()
+        # ---- a dataset saved before it has a time axis, given one in place, and saved again through the same accessor: the second
+        # file carries the EMS form of the units
+        for n2 in range(2):
+            d2 = gen.any_dataset(rng, ['cf1d', 'ugrid'][n2], **({} if n2 == 0 else {'invalid': False}))
+            g2 = d2.ds
+            t2name = gen.TIME_NAMES.get(d2.family, 'time')
+            p_a, p_b = os.path.join(tmp, f'late_time_a_{n2}.nc'), os.path.join(tmp, f'late_time_b_{n2}.nc')
+            lcase = {'dataset': d2.spec['label'], 'history': 'saved without a time axis, time axis added in place, saved again'}
+            ctx.case((d2.spec['label'], 'late time axis'), True)
+            ctx.count('saved before and after a time axis was added')
+            with warnings.catch_warnings():
+                warnings.simplefilter('ignore')
+                r_a = attempt(lambda: g2.ems.to_netcdf(p_a))
+                tv2 = xarray.DataArray(numpy.array(['1990-01-01T00:00', '1990-01-01T06:00'], dtype='datetime64[ns]'), dims=['record'],
+                                       attrs={'standard_name': 'time', 'coordinate_type': 'time'})
+                tv2.encoding.update({'units': 'hours since 1990-01-01 00:00:00 +10:00', '_FillValue': None})
+                g2.coords[t2name] = tv2
+                fd2 = list(d2.spec['kinds']['face'])
+                g2['late_field'] = xarray.DataArray(numpy.zeros([2] + [g2.sizes[x] for x in fd2]), dims=['record'] + fd2)
+                r_b = attempt(lambda: g2.ems.to_netcdf(p_b))
+            if r_a[0] != 'ok' or r_b[0] != 'ok':
+                ctx.report('property', f'ems.to_netcdf failed: {r_a} / {r_b}', lcase)
+                continue
+            u2 = raw_attrs(p_b).get(t2name, {}).get('units')
+            if u2 is None or not SHAPE.match(str(u2)):
+                ctx.report('property', f'time units written as {u2!r}: not the EMS form', lcase)
         model = coq_eval_sharded(['Model.TimeUnits'], exprs, shard=20, workers=8)
         ctx.leg('save_reopen_cases', len(exprs))
         tmodel = coq_eval_sharded(['Model.TimeCoord'], tc_exprs, shard=20, workers=8)
